@@ -6,7 +6,8 @@ import UsualProofs.C14.FnComplete
     `s` (`none` at the start of the string).  Differences from `Matches`:
     * a wildcard (`?`, bracket, `*`) may not consume a LEADING period under FNM_PERIOD — leading =
       at the start of the string, or right after `/` under FNM_PATHNAME (`wildOK`);
-    * a `*` that is directly followed by an unescaped `.` (`.star true`) cannot start at a
+    * a `*` that is directly followed by a `.` written in the pattern, plain or escaped (`.star true`,
+      `dotNext`), cannot start at a
       position where a wildcard could consume nothing (end of string, `/` under FNM_PATHNAME,
       leading period under FNM_PERIOD): the glibc-style reading of `*.` the code implements. -/
 namespace UsualProofs.C14
@@ -403,7 +404,7 @@ theorem wfn_soundP (fl : FnFlags) (G : Prop) : ∀ (f : Nat) (p : List Nat) (s :
         · cases h
         · next hq =>
           rw [htk] at I1
-          have hq' : (p1.head? == some cDot) = true → disallow fl ⟨s.prev, s.rest⟩ = false := by
+          have hq' : (dotNext fl p1) = true → disallow fl ⟨s.prev, s.rest⟩ = false := by
             intro hm
             cases hd : disallow fl s with
             | false => rfl
@@ -865,7 +866,7 @@ theorem wfn_completeP (fl : FnFlags) :
       · simp only [c1, if_true]
         rw [if_pos c1] at htk
         -- the `*` at hand can make the rest match from here
-        have hstar : MatchesP fl s.prev (.star (p1.head? == some cDot) :: toks fl p1) s.rest := by
+        have hstar : MatchesP fl s.prev (.star (dotNext fl p1) :: toks fl p1) s.rest := by
           cases retry with
           | none => simp only [CInvP] at hc; rw [htk] at hc; exact hc
           | some rs =>
@@ -875,7 +876,7 @@ theorem wfn_completeP (fl : FnFlags) :
             rw [h8]
             exact greedyP fl _ _ seg pre _ _ h6 h7
         obtain ⟨hq, hbody⟩ := starP_body fl _ _ _ _ hstar
-        have hnodot : ¬ ((p1.head? == some cDot && disallow fl s) = true) := by
+        have hnodot : ¬ ((dotNext fl p1 && disallow fl s) = true) := by
           intro hcond
           simp only [Bool.and_eq_true] at hcond
           have := hq hcond.1
